@@ -49,15 +49,17 @@ class C14(Prop):
     assumptions = ['in a group of one nothing is communicated and the input is returned unchanged (rejection is not required there)',
                    'vkit/simdist for the communication part']
     exhaustive = True
-    examples = {'quick': 60, 'thorough': 600}
+    examples = {'quick': 120, 'thorough': 800}
     shards = {'quick': 4, 'thorough': 16}
     enum_shards = {'quick': 4, 'thorough': 16}
-    required_labels = {'quick': ['kind=pack', 'kind=comm', 'kind=reject', 'wide=True'], 'thorough': ['kind=pack', 'kind=comm', 'kind=reject', 'wide=True']}
+    required_labels = {'quick': ['kind=pack', 'kind=comm', 'kind=reject', 'wide=True', 'subgroup=True'], 'thorough': ['kind=pack', 'kind=comm', 'kind=reject', 'wide=True']}
 
     def strategy(self, tier):
         comm = st.fixed_dictionaries({
-            'kind': st.just('comm'), 'W': st.sampled_from([2, 3]), 'n': st.integers(1, 24), 'dtype': st.sampled_from(DTYPES),
-            'layout': st.sampled_from(LAYOUTS), 'cap_bytes': st.sampled_from([1, 64, 25_000_000]), 'src': st.integers(0, 1),
+            'kind': st.just('comm'), 'W': st.sampled_from([2, 3, 4, 4]), 'n': st.integers(1, 24), 'dtype': st.sampled_from(DTYPES),
+            'layout': st.sampled_from(LAYOUTS), 'cap_bytes': st.sampled_from([1, 64, 25_000_000]), 'src': st.integers(0, 3),
+            'group': st.one_of(st.none(), st.lists(st.integers(0, 3), min_size=2, max_size=3, unique=True).map(sorted),
+                               st.sampled_from([[1, 2], [1, 3], [2, 3], [1, 2, 3], [0, 2], [0, 2, 3], [0, 1, 3]])),
             'schedule': st.lists(st.integers(0, 31), max_size=40), 'flip': st.booleans()})
         two_d = st.tuples(st.integers(1, 6), st.integers(1, 6)).filter(lambda t: t[0] != t[1]).map(list)
         shape = st.one_of(two_d, two_d, two_d, st.just([]), st.lists(st.integers(1, 5), min_size=1, max_size=1),
@@ -125,38 +127,45 @@ class C14(Prop):
         W, n = case['W'], case['n']
         dtype = getattr(torch, case['dtype'])
         cap_mb = (case['cap_bytes'] + 0.5) / 1e6
-        src = case['src'] % W
+        members = sorted({r for r in (case.get('group') or range(W)) if r < W})
+        if len(members) < 2:
+            members = list(range(W))
+        sub = members != list(range(W))
+        src = members[case['src'] % len(members)]       # a global rank that is a member of the group
 
         def mk(rank):
             return with_layout(torch, sym_matrix(torch, n, dtype, salt=rank * 7 + 1), case['layout'])
 
         def prog(rank):
             comm = TorchDistributedCommunicator(cap_mb)
+            group = dist.new_group(members) if sub else None
             out = {}
+            if rank not in members:
+                return None
 
             def val(f):
                 return f.wait() if not isinstance(f, torch.Tensor) else f
             for name, symmetric in (('sym', True), ('dense', False)):
                 simdist.set_phase(name)
-                out[name + '_ar'] = val(comm.allreduce(mk(rank), average=True, symmetric=symmetric))
-                f = comm.allreduce_bucketed(mk(rank), average=False, symmetric=symmetric)
+                out[name + '_ar'] = val(comm.allreduce(mk(rank), average=True, symmetric=symmetric, group=group))
+                f = comm.allreduce_bucketed(mk(rank), average=False, symmetric=symmetric, group=group)
                 comm.flush_allreduce_buckets()
                 out[name + '_arb'] = val(f)
-                out[name + '_bc'] = val(comm.broadcast(mk(rank).contiguous().clone(), src=src, symmetric=symmetric))
+                out[name + '_bc'] = val(comm.broadcast(mk(rank).contiguous().clone(), src=src, symmetric=symmetric, group=group))
             return out
 
         res = simdist.Sim(W, case['schedule'], flip_timing=case['flip']).run(prog, timeout=60)
         if res.timed_out:
             raise RuntimeError('simulation timed out (harness)')
-        labels = {'kind': 'comm', 'W': W, 'dtype': case['dtype'], 'layout': case['layout']}
+        labels = {'kind': 'comm', 'W': W, 'dtype': case['dtype'], 'layout': case['layout'], 'subgroup': sub}
         if not res.ok:
             return violation(f'protocol violation {res.violations[0]}', 'protocol:' + res.violations[0].kind, labels=labels)
-        for rank in range(W):
+        for rank in members:
             o = res.results[rank]
             for op in ('ar', 'arb', 'bc'):
                 a, b = o['sym_' + op], o['dense_' + op]
                 if tuple(a.shape) != (n, n) or a.dtype != b.dtype or not torch.equal(a, b):
-                    return violation(f'rank {rank}: symmetric {op} differs from dense {op} for n={n} dtype={case["dtype"]} layout={case["layout"]}: '
+                    return violation(f'rank {rank}: symmetric {op} differs from dense {op} for n={n} dtype={case["dtype"]} layout={case["layout"]} group={members} src={src}: '
                                      f'{a.flatten()[:5].tolist()} vs {b.flatten()[:5].tolist()}', 'sym-vs-dense', labels=labels)
             for ph, exp in (('sym', n * (n + 1) // 2), ('dense', n * n)):
                 sent = [e['numel'] for e in res.trace[rank] if e.get('phase') == ph and e['kind'] in ('all_reduce', 'broadcast')]
